@@ -7,9 +7,11 @@
       target : STRING, tabs : BOOLEAN, tcomps : Seq(name),   \* sym: target text + its structure
       cid : Nat,                                        \* file: identity of the data bytes
       major, minor : Nat, devkind : "c" | "b" | "-",    \* dev
-      ino : Nat]                                        \* file: inode identity, 0 = no inode information
-   Files with the same non-zero ino are hard links of each other: the inode GROUPS are the
-   partition of the file paths by ino (ino 0 = singleton).
+      dev, ino : Nat]                                   \* file: device and inode NUMBER on that device,
+                                                        \*       ino 0 = no inode information
+   Inode numbers are unique per device only: files are hard links of each other when they agree on
+   dev AND on a non-zero ino; the inode GROUPS are the partition of the file paths by <<dev, ino>>
+   (ino 0 = singleton).  A set may span several devices whose inode numbers collide.
 
    An archive is a SEQUENCE of members  [name, kind : "dir"|"reg"|"lnk"|"sym"|"fifo"|"dev", link, ent]
    ("lnk" = tar hard link member: no data, `link` names another member; ent carries the attributes).
@@ -28,6 +30,12 @@ PathKeyed(s) == \A a, b \in s : a.path = b.path => a = b
 EntryAt(s, p) == CHOOSE e \in s : e.path = p
 SymsOf(s)    == {e \in s : e.type = "sym"}
 FilesOf(s)   == {e \in s : e.type = "file"}
+
+SameInode(a, b) == a.ino # 0 /\ a.ino = b.ino /\ a.dev = b.dev
+\* hard links are ONE object: they cannot differ in attributes or data
+GroupsConsistent(s) == \A a, b \in FilesOf(s) : SameInode(a, b) =>
+                          /\ a.mode = b.mode /\ a.uid = b.uid /\ a.gid = b.gid
+                          /\ a.msec = b.msec /\ a.musec = b.musec /\ a.cid = b.cid
 
 (* ------------------------------------------------------------------------------------------
    Resolution of symlinked directories ("as for a live merge")
@@ -76,6 +84,7 @@ Resolvable(s) ==
     /\ Cardinality(LogicalTab(s)) = Cardinality(tab)
 InDomain(s) ==
     /\ PathKeyed(s)
+    /\ GroupsConsistent(s)
     /\ \A e \in s : e.path # <<>> /\ \A k \in DOMAIN e.path : e.path[k] \notin {".", "..", ""}
     /\ Resolvable(s)
     /\ LET r == Resolve(s) IN
@@ -85,7 +94,7 @@ InDomain(s) ==
 (* ------------------------------------------------------------------------------------------
    Equivalence of what was read (out) with what is expected (exp), clause by clause.
    `extra` are the paths at which a directory may have been supplied for a missing parent.     *)
-SameGroup(s, p, q) == p = q \/ (EntryAt(s, p).ino # 0 /\ EntryAt(s, p).ino = EntryAt(s, q).ino)
+SameGroup(s, p, q) == p = q \/ SameInode(EntryAt(s, p), EntryAt(s, q))
 GroupsEqual(out, exp) ==
     LET fp == {e.path : e \in FilesOf(exp)} \cap {e.path : e \in FilesOf(out)} IN
     \A p \in fp, q \in fp : SameGroup(out, p, q) <=> SameGroup(exp, p, q)
@@ -108,14 +117,14 @@ KindOf(e) == IF e.type = "file" THEN "reg" ELSE e.type
 \* of its group; everything else carries itself.  order: the set as a sequence (directories first
 \* in the real writer; the result must not depend on the order).
 RECURSIVE WriteFrom(_, _, _)
-WriteFrom(order, arch, seen) ==       \* seen: set of <<ino, path of the first member>>
+WriteFrom(order, arch, seen) ==       \* seen: set of <<dev, ino, path of the first member>>
     IF order = <<>> THEN arch
     ELSE LET e == Head(order)
-             hit == {x \in seen : e.type = "file" /\ e.ino # 0 /\ x[1] = e.ino} IN
+             hit == {x \in seen : e.type = "file" /\ e.ino # 0 /\ x[1] = e.dev /\ x[2] = e.ino} IN
          IF hit # {}
-         THEN WriteFrom(Tail(order), Append(arch, Member(e, "lnk", (CHOOSE x \in hit : TRUE)[2])), seen)
+         THEN WriteFrom(Tail(order), Append(arch, Member(e, "lnk", (CHOOSE x \in hit : TRUE)[3])), seen)
          ELSE WriteFrom(Tail(order), Append(arch, Member(e, KindOf(e), <<>>)),
-                        IF e.type = "file" /\ e.ino # 0 THEN seen \cup {<<e.ino, e.path>>} ELSE seen)
+                        IF e.type = "file" /\ e.ino # 0 THEN seen \cup {<<e.dev, e.ino, e.path>>} ELSE seen)
 WriteSeq(order) == WriteFrom(order, <<>>, {})
 
 \* reader, step 1: members -> raw entries with fresh inode numbers.  A "lnk" member takes the inode
@@ -133,16 +142,16 @@ LinksResolvable(arch) == \A k \in DOMAIN arch : arch[k].kind = "lnk" =>
 RawEntry(arch, k) ==
     LET m == arch[k] IN
     IF m.kind \in {"reg", "lnk"}
-    THEN [m.ent EXCEPT !.path = m.name, !.type = "file", !.ino = InoOfMember(arch, k),
+    THEN [m.ent EXCEPT !.path = m.name, !.type = "file", !.dev = 1, !.ino = InoOfMember(arch, k),   \* one device: the archive
                        !.cid = IF InoOfMember(arch, k) = 0 THEN 0 ELSE arch[InoOfMember(arch, k)].ent.cid]
-    ELSE [m.ent EXCEPT !.path = m.name, !.type = m.kind, !.ino = 0]
+    ELSE [m.ent EXCEPT !.path = m.name, !.type = m.kind, !.dev = 0, !.ino = 0]
 \* later members replace earlier ones of the same name (path keyed)
 RawRead(arch) == {RawEntry(arch, k) : k \in {j \in DOMAIN arch : \A i \in DOMAIN arch : arch[i].name = arch[j].name => i <= j}}
 \* reader, step 2: resolve symlinked directories; step 3: supply missing parents (attributes of
 \* those are not specified: DirStub marks them)
 DirStub(p) == [path |-> p, type |-> "dir", mode |-> 0, uid |-> 0, gid |-> 0, msec |-> 0, musec |-> 0,
                target |-> "", tabs |-> FALSE, tcomps |-> <<>>, cid |-> 0, major |-> 0, minor |-> 0,
-               devkind |-> "-", ino |-> 0]
+               devkind |-> "-", dev |-> 0, ino |-> 0]
 ReadArchive(arch) == LET r == Resolve(RawRead(arch)) IN r \cup {DirStub(p) : p \in MissingDirs(r)}
 Expected(s)       == LET r == Resolve(s) IN r \cup {DirStub(p) : p \in MissingDirs(r)}
 
